@@ -194,6 +194,14 @@ carquet_schema_t* build_schema(
             "File metadata has no schema");
         return NULL;
     }
+    /* version, schema, num_rows and row_groups are required fields. Bytes that
+     * merely decode as some Thrift struct (user data in front of a look-alike
+     * tail of a file cut short) must not pass for a footer. */
+    if ((metadata->fields_present & PARQUET_FMD_REQUIRED) != PARQUET_FMD_REQUIRED) {
+        CARQUET_SET_ERROR(error, CARQUET_ERROR_INVALID_METADATA,
+            "File metadata lacks a required field");
+        return NULL;
+    }
 
     /* Below the root, a node is either a group (children, no physical type) or a
      * leaf (a physical type, no children). The column list is derived from
